@@ -6,6 +6,7 @@ both sides built from fresh objects and exhausted through IterateSATGen, trial c
   L2  Repeat(block, cs)  ==  Merge([block], cs, REPEAT, EQUAL_PREAMBLE)
   L3  Repeat(block, [])  ==  Merge([block])  ==  block
   L4  CrossBlock(design, crossing, cs)  ==  MultiCrossBlock(design, [crossing], cs, mode=WEIGHT)
+  LD  Merge(blocks) with no alignment given == Merge(blocks, [], REPEAT, alignment of the first block) == the MultiCrossBlock of L1
   H   L3 again after other combinators (of constrained blocks, all arguments at their defaults) were built in the same process
 If exactly one side can be constructed, that is a violation; if neither can, the instance is skipped.
 """
@@ -81,6 +82,16 @@ def law_items(tier, seed):
                 out.append({'law': 'L2', 'factors': fs, 'sides': [{'op': 'repeat', 'block': inner, 'constraints': cs},
                                                                    {'op': 'merge', 'blocks': [inner], 'constraints': cs, 'mode': 'repeat',
                                                                     'alignment': 'equal preamble'}], 'tier': tier})
+    # LD ("if alignment is not specified, it defaults to the alignment of the first block"): Merge(blocks) == Merge(blocks, [], REPEAT, al)
+    for al in ('post preamble', 'parallel start'):
+        for crs in ([['A']], [['TB']]), ([['TB']], [['A']]), ([['A']], [['B', 'TB']]):
+            bl = [{'op': 'multi', 'design': ['A', 'B', 'TB'], 'crossings': c, 'constraints': [], 'rcc': True, 'mode': 'repeat', 'alignment': al}
+                  for c in crs]
+            out.append({'law': 'LD', 'factors': [A, Bf, TB], 'tier': tier,
+                        'sides': [{'op': 'merge', 'blocks': bl, 'constraints': []},
+                                  {'op': 'merge', 'blocks': bl, 'constraints': [], 'mode': 'repeat', 'alignment': al},
+                                  {'op': 'multi', 'design': ['A', 'B', 'TB'], 'crossings': [c[0] for c in crs], 'constraints': [], 'rcc': True,
+                                   'mode': 'repeat', 'alignment': al}]})
     # H: the laws must not depend on what was built before in the same process (default arguments are shared objects):
     # first build Merge / Nest of a CONSTRAINED block with every argument at its default, then check L3 on an unconstrained block
     A = gen.basic('A', 2); Bf = gen.basic('B', 2); O = gen.basic('O', 2)
